@@ -138,8 +138,17 @@ struct HistEngine : Engine {
 				else if (j < 60) { o["k"] = "E_PARSE_SUB"; size_t dl = docs[(size_t)S.doc].s.size(); o["start"] = (int64_t)w.below(dl + 1); o["len"] = w.chance(1, 3) ? -1 : (int64_t)w.below(dl / 2 + 1); S.parsed = false; S.exported = false; S.stale = false; }
 				else if (j < 68) { if (S.stale) continue; o["k"] = "E_HAS_META"; }
 				else if (j < 74) { if (S.stale) continue; o["k"] = "E_KEYS"; }
-				else if (j < 80) { if (S.stale) continue; o["k"] = "E_VALUE"; o["key"] = w.chance(1, 2) ? "title" : w.chance(1, 2) ? "Author" : "css"; }
-				else if (j < 83) { o["k"] = "E_SET_LANG"; o["lang"] = (int64_t)w.below(7); }
+				else if (j < 78) { if (S.stale) continue; o["k"] = "E_VALUE"; o["key"] = w.chance(1, 2) ? "title" : w.chance(1, 2) ? "Author" : "css"; }
+				else if (j < 82) {
+					// the documented in-place edit of the engine's text; later conversions on this engine are judged against a fresh engine
+					// that gets the same edit(s) and then the same conversion
+					if (S.opml) continue;
+					static const char * uk[] = {"title", "Author", "Language", "New Key", "css", "Base Header Level"};
+					static const char * uv[] = {"changed *value*", "de", "2", "x & y", "style.css", "A. N. Other"};
+					o["k"] = "E_UPDATE"; o["key"] = uk[w.below(6)]; o["value"] = uv[w.below(6)];
+					S.parsed = false; S.exported = false; S.stale = false;
+				}
+				else if (j < 84) { o["k"] = "E_SET_LANG"; o["lang"] = (int64_t)w.below(7); }
 				else if (j < 91) {
 					// the caller replaces the text the engine works on (mmd_engine_d_string / its own DString) - one engine, several documents
 					o["k"] = "E_SET_TEXT"; o["doc"] = (int64_t)w.below((uint64_t)ndocs);
@@ -192,6 +201,7 @@ struct HistEngine : Engine {
 				else if (k == "E_PARSE") { S.parsed = true; S.exported = false; S.stale = false; }
 				else if (k == "E_EXPORT") { if (!(S.parsed && !S.exported && !S.stale)) continue; S.exported = true; }
 				else if (k == "E_PARSE_SUB" || k == "E_RESET" || k == "E_SET_TEXT") { S.parsed = S.exported = false; S.stale = false; }
+				else if (k == "E_UPDATE") { if (S.opml) continue; S.parsed = S.exported = false; S.stale = false; }
 				else if (k == "E_HAS_META" || k == "E_KEYS" || k == "E_VALUE") { if (S.stale) continue; }
 				else if (k == "E_FREE") S = PSlot();
 			}
@@ -336,6 +346,14 @@ struct HistEngine : Engine {
 					IN_LIB_V(d_string_append(d, nd.c_str()));
 					S.text = nd; S.parsed = S.exported = false; S.stale = false;
 					probes["engine_text_replaced"]++;
+				}
+				else if (kind == "E_UPDATE") {
+					std::string key2 = op.gets("key"), val = op.gets("value");
+					IN_LIB_V(mmd_engine_update_metavalue_for_key(e, key2.c_str(), val.c_str()));
+					DString * d = e->dstr;
+					S.text.assign(d->str, d->currentStringLength);      // the documented edit: this is the caller's source from now on
+					S.parsed = S.exported = false; S.stale = false;
+					probes["engine_metadata_updated"]++;
 				}
 				else if (kind == "E_SET_LANG") { IN_LIB_V(mmd_engine_set_language(e, (short)op.geti("lang"))); S.lang_changed = true; }
 				else if (kind == "E_RESET") { IN_LIB_V(mmd_engine_reset(e)); S.parsed = S.exported = false; S.stale = false; }
@@ -490,8 +508,15 @@ struct HistEngine : Engine {
 			}
 			if (create < 0) return Json();
 			Json cr = ops[(size_t)create];
-			for (int j = create + 1; j < k; j++) { const Json & q = ops[(size_t)j]; if ((int)q.geti("slot") % 3 == s && q.gets("k") == "E_SET_TEXT") cr["doc"] = q.at("doc"); }
+			std::vector<Json> edits;      // in-place metadata updates since the text was last set: part of what "the source" is at operation k
+			for (int j = create + 1; j < k; j++) {
+				const Json & q = ops[(size_t)j];
+				if ((int)q.geti("slot") % 3 != s) continue;
+				if (q.gets("k") == "E_SET_TEXT") { cr["doc"] = q.at("doc"); edits.clear(); }
+				else if (q.gets("k") == "E_UPDATE") edits.push_back(q);
+			}
 			nops.push(use_doc(cr));
+			for (auto & ed : edits) nops.push(ed);
 			Json lang;
 			for (int j = create + 1; j < k; j++) { const Json & q = ops[(size_t)j]; if ((int)q.geti("slot") % 3 == s && q.gets("k") == "E_SET_LANG") lang = q; }
 			if (!lang.is_null()) nops.push(lang);
